@@ -12,36 +12,48 @@ from vp import replay_C12
 
 LEVEL = 'other'
 EXPLANATION = (
-    'Leaf level of C12.  (1) Every function of lex.cpp, (2) the cursor loops of tokenizer_t '
-    '(skipTo x2, skipFrom, the loops of countSkippedLines and getRawString) and (3) the cursor handling of '
-    'primitive::load/loadHex/loadBinary are C-extracted by must-fire rewrite rules from the current tree and '
-    'proved against CBMC function contracts + loop contracts (dfcc) for a NUL-terminated buffer of ANY length '
-    '<= 10^8 with arbitrary content (further NULs may occur anywhere): the cursor stays in the buffer object, '
-    'never moves backwards, the function terminates (decreases clauses), stops at NUL or at its documented '
-    'delimiter, passed-over positions satisfy the documented skip condition (ghost index), and nothing but the '
-    'cursor (and line bookkeeping) is assigned.  Callers are checked against callee contracts.  '
-    '(4) escape/unescape are compiled by the C++ front end from their real text: round trip and '
-    '"every quote in the output is escaped" for every byte string up to the tier bound (bounded).')
-TRUSTED = ['cbmc 6.11.0 C and C++ front ends, goto-instrument --dfcc (contract instrumentation), SAT back end (CaDiCaL; MiniSat for tokenizer/getRawString_endloop)',
+    'Leaf level of C12.  (1) Every function of lex.cpp, (2) the cursor loops of tokenizer_t (skipTo x2, skipFrom, the '
+    'loops of countSkippedLines and getRawString) with the four scan-then-step call sites (getString, getRawString, '
+    'getCharToken, getHeader: skipTo("<c>\\n") followed by ++fp.start) and (3) the cursor handling of '
+    'primitive::load/loadHex/loadBinary are C-extracted by must-fire rewrite rules from the current tree and proved '
+    'against CBMC function contracts + loop contracts (dfcc) for a NUL-terminated buffer of ANY length <= 10^8 with '
+    'arbitrary content (further NULs may occur anywhere): the cursor stays in the buffer object, never moves backwards, '
+    'the function terminates (decreases clauses), stops at NUL or at its documented delimiter, passed-over positions '
+    'satisfy the documented skip condition (ghost index), and nothing but the cursor (and line bookkeeping) is assigned.  '
+    'Callers are checked against callee contracts.  (4) escape/unescape are compiled by the C++ front end from their '
+    'real text: round trip, "every quote in the output is escaped" and "printing a literal body gives back its '
+    'spelling" for every byte string up to the tier bound (bounded).')
+TRUSTED = ['cbmc 6.11.0 C and C++ front ends, goto-instrument --dfcc (contract instrumentation), '
+           'SAT back end (CaDiCaL; MiniSat for tokenizer/getRawString_endloop)',
            'C extraction rules of DESIGN 4.2: reference parameter -> pointer + #define alias, ns::name -> ns_name, '
            'overloads numbered by signature, bool -> _Bool (stdbool.h)',
            'stubs/string: fixed-capacity std::string (capacity asserted on every append)',
            'C mirror of class filePosition generated from the real member list (names checked every run)',
-           'C model of class primitive reduced to its `type` field; primitiveType enumerators parsed from the real header']
+           'C model of class primitive reduced to its `type` field; primitiveType enumerators parsed from the real header',
+           'ghost membership table: in the groups of the callers of inCharset the table verif_member is an arbitrary '
+           'function (the callers are proved for every table); that inCharset returns exactly the table entry when the '
+           'table is the characteristic function of the set is group lex/inCharset/membership; putting the two together '
+           '(instantiating the table) is a paper step']
 ASSUMPTIONS = [
     'LP64, two\'s complement',
-    'buffers are at most 10^8 bytes (is_fresh with symbolic size needs a bound far below 2^63; 10^8 exceeds any source file)',
+    'buffers are at most 10^8 bytes (a bound far below 2^63 is needed for symbolic object sizes; 10^8 exceeds any source file); '
+    'the buffer is a heap object of exactly length+1 bytes allocated by the harness, the by-reference cursor lives outside it',
     'set membership is specified exactly (quantifier free) only for character sets of at most 64 characters without '
-    'interior NUL (longest set literal in libocca: 63); memory safety and termination hold for sets of any length',
+    'interior NUL (longest set literal in libocca: 63); memory safety and termination of inCharset hold for sets of any length',
     'tokenizer loops: fp.line + buffer length < 2^31 (no signed overflow of the line counter)',
     'getRawString end-pattern loop: the end pattern `)delim"` has at most 64 characters and no interior NUL '
     '(it is built from a buffer span that skipTo has passed over)',
+    'scan-then-step fragments: statements that do not touch the cursor (origin stack push/pop, printError, std::string '
+    'value extraction) are dropped; popAndRewind() is modelled as a rewind to an earlier in-buffer position',
     'assumed (not proved) contracts of libc strlen/strncmp and of parseInt/parseFloat/parseDouble, primitive '
     'constructors/to<T>() (reduced to the type tag) and std::string(c0, n) (checked: [c0, c0+n) is readable)',
+    'escape/unescape are specified for a quote character q != 0 and an escape character e != q',
 ]
 NOT_REACHED = ['getToken/peek/shallowPeek dispatch, token classes, token printing (STL/AST)',
                'the token-sequence round trip as a whole; operator longest match is C28',
-               'typing/value of literals (C14)']
+               'typing/value of literals (C14)',
+               'getLineCommentToken/getBlockCommentToken/getIdentifier/getOperatorToken bodies (they only call the scanners '
+               'proved here and step over characters they have just compared with a non-NUL value; not under contract)']
 
 LEX_CPP = 'src/occa/internal/utils/lex.cpp'
 TOK_CPP = 'src/occa/internal/lang/tokenizer.cpp'
@@ -54,15 +66,6 @@ STRING_HPP = 'src/occa/internal/utils/string.hpp'
 GHOSTS = '''const char *verif_buf; size_t verif_len; size_t verif_g; char verif_gv, verif_gp;
 char verif_cs_arr[VERIF_K + 1]; const char *verif_cs; size_t verif_cs_len; _Bool verif_member[256];
 '''
-
-WS = r'\s*'
-
-
-def sig(s):
-    """Signature regex tolerant of whitespace: every blank run in s matches \\s*/\\s+."""
-    parts = [re.escape(p) for p in s.split(' ')]
-    return r'^[ \t]*' + r'\s*'.join(parts)
-
 
 # ------------------------------------------------------------------ lex.cpp
 
@@ -552,7 +555,7 @@ extern "C" void h_spelling_roundtrip() {
 
 
 def escape_groups(ctx):
-    n = 4 if ctx.tier == 'quick' else 6
+    n = 4 if ctx.tier == 'quick' else 10
     esc = extract_function(ctx, STRING_CPP, r'^[ \t]*std::string\s+escape\s*\(\s*const\s+std::string\s*&\s*str\s*,\s*const\s+char\s+c\s*,'
                            r'\s*const\s+char\s+escapeChar\s*\)\s*\{', name='escape')
     une = extract_function(ctx, STRING_CPP, r'^[ \t]*std::string\s+unescape\s*\(\s*const\s+std::string\s*&\s*str\s*,\s*const\s+char\s+c\s*,'
